@@ -64,9 +64,21 @@ impl DirectoryPackCreator {
         }
 
         info!("----- Finalize entry_stores -----");
-        // Entries may reference entries of other stores: order all of them first.
-        for entry_store in &mut self.entry_stores {
-            entry_store.finalize_order();
+        // Entries may reference entries of other stores (and be sorted on them):
+        // order all the stores, until none of them moves anymore.
+        let mut watchdog = 50;
+        loop {
+            let mut changed = false;
+            for entry_store in &mut self.entry_stores {
+                changed |= entry_store.finalize_order();
+            }
+            if !changed {
+                break;
+            }
+            watchdog -= 1;
+            if watchdog == 0 {
+                panic!("Cannot sort entry stores");
+            }
         }
         let finalized_entry_stores: Vec<Box<dyn WritableTell>> = self
             .entry_stores
